@@ -28,6 +28,10 @@ type Point struct {
 	RunningEnabled bool
 	Chosen         int // index into Enabled
 	Label          string
+	// Key, when the scenario supplies Sched.KeyFn, fingerprints the global
+	// state in which this decision was taken (0: none). The Explorer uses it to
+	// prune decisions already expanded from an identical state.
+	Key uint64 `json:"key,omitempty"`
 }
 
 type Sched struct {
@@ -48,6 +52,9 @@ type Sched struct {
 	// keep running the current thread). It receives the enabled thread ids in
 	// canonical order and the running thread and returns an index into enabled.
 	Policy func(enabled []int, running int) int
+	// KeyFn, when set, is evaluated at every scheduling point while no thread
+	// runs and must fingerprint everything the future can depend on.
+	KeyFn func() uint64
 }
 
 func New(prefix []int) *Sched {
@@ -165,7 +172,11 @@ func (s *Sched) Run() (panicMsg string) {
 			}
 		}
 		runningEnabled := len(en) > 0 && en[0] == s.cur
-		s.Points = append(s.Points, Point{Enabled: en, Running: s.cur, RunningEnabled: runningEnabled, Chosen: choice, Label: s.label})
+		var key uint64
+		if s.KeyFn != nil {
+			key = s.KeyFn()
+		}
+		s.Points = append(s.Points, Point{Enabled: en, Running: s.cur, RunningEnabled: runningEnabled, Chosen: choice, Label: s.label, Key: key})
 		if len(s.Points) > s.MaxPoints {
 			s.Truncated = true
 			break
@@ -231,9 +242,17 @@ type Explorer struct {
 	Schedule   []int
 	Capped     bool
 	Outcomes   map[string]int
+	// Prune enables state-key pruning (Points must carry Key): a decision
+	// (state, thread to run) is expanded once per budget level - again only if
+	// reached with fewer preemptions used. Sound when Key determines the future
+	// and the verdict (the scenario's responsibility).
+	Prune   bool
+	Pruned  int
+	visited map[[2]uint64]int
 }
 
 func (e *Explorer) Explore() {
+	e.visited = map[[2]uint64]int{}
 	e.explore(nil)
 }
 
@@ -255,6 +274,23 @@ func (e *Explorer) explore(prefix []int) {
 		}
 		return
 	}
+	if e.Prune {
+		// register the decisions this execution took beyond its prefix (the last
+		// prefix element is the deviation that defined it)
+		from := len(prefix) - 1
+		if from < 0 {
+			from = 0
+		}
+		for i := from; i < len(points); i++ {
+			if p := points[i]; p.Key != 0 && p.Chosen < len(p.Enabled) {
+				k := [2]uint64{p.Key, uint64(p.Enabled[p.Chosen])}
+				used := Preemptions(points, i+1)
+				if prev, ok := e.visited[k]; !ok || used < prev {
+					e.visited[k] = used
+				}
+			}
+		}
+	}
 	for i := len(prefix); i < len(points); i++ {
 		p := points[i]
 		cost := Preemptions(points, i)
@@ -265,6 +301,13 @@ func (e *Explorer) explore(prefix []int) {
 			}
 			if c > e.Bound {
 				continue
+			}
+			if e.Prune && p.Key != 0 {
+				k := [2]uint64{p.Key, uint64(p.Enabled[alt])}
+				if prev, ok := e.visited[k]; ok && prev <= c {
+					e.Pruned++
+					continue
+				}
 			}
 			next := make([]int, i+1)
 			for k := 0; k < i; k++ {
